@@ -21,7 +21,8 @@ import leanio  # noqa: E402
 import translate  # noqa: E402
 
 REPLAY_DIR = os.path.join(VERIF, "replay")
-EVIDENCE_DIR = os.path.join(VERIF, "evidence")
+# evidence describes runs against /repo itself; a self-test run against a scratch worktree (NPTDMS_REPO) writes elsewhere
+EVIDENCE_DIR = os.path.join(VERIF, "evidence" if os.path.abspath(os.environ.get("NPTDMS_REPO", "/repo")) == "/repo" else "replay/selftest-evidence")
 OBLIGATIONS = os.path.join(VERIF, "lean", "obligations.json")
 FINDINGS = os.path.join(VERIF, "known_findings.json")
 
